@@ -266,7 +266,9 @@ def gen_exprs(tier, rng):
     out = list(level1)
     # depth 2/3: seeded sample of compositions (reported as such)
     n2 = 900 if tier == "thorough" else 250
-    pool = level1 + leaves[:4]
+    # Polynomial objects are a legacy arithmetic type with operators of their own (integer powers only, exact division or an error): they are differentiated where they
+    # stand in level1 (alone, in a sum, in a product), and kept out of the random compositions, whose rules build f**g, f/g**2, ... with the operators
+    pool = [e_ for e_ in level1 if not _has_polynomial(e_)] + leaves[:4]
     for _ in range(n2):
         k = rng.choice(["sum", "prod", "quot", "pow", "powc", "call", "if", "cse", "cse2"])
         u, v, w = rng.choice(pool), rng.choice(pool), rng.choice(pool)
